@@ -184,7 +184,11 @@ type c15Frame struct {
 	RawType   byte
 	RawFlags  byte
 	deps      []*c15Frame
-	TableSize int // headers: new HPACK dynamic table size announced with this block, -1 none
+	TableSize int           // headers: new HPACK dynamic table size announced with this block, -1 none
+	MaxFrame  int           // settings: SETTINGS_MAX_FRAME_SIZE advertised (0: not mentioned)
+	Gap       time.Duration // simulated pause before this frame is completely delivered
+	gapDone   bool
+	bigFrame  bool // a physical frame with more than 16384 bytes of payload
 
 	hpackUpdate, hpackBeyond, hpackShrunk bool // set when encoding
 
@@ -249,6 +253,9 @@ type c15Case struct {
 	// BigTable: per direction, the HPACK dynamic table size (> 4096) the sending
 	// peer's encoder switches to with its first header block; 0 = default table
 	BigTable [2]int
+	// MaxFrame: per direction, the SETTINGS_MAX_FRAME_SIZE the receiving peer advertised
+	// for frames sent in that direction; 0 = the initial 16384
+	MaxFrame [2]int
 	IsServer bool
 	Streams  []*c15Stream
 	Frames   []*c15Frame // global order
@@ -287,7 +294,18 @@ func c15Payload(i, l int) []byte {
 	return p
 }
 
-func c15GenBody(tape *simrt.Tape, tier string) []byte {
+// maxFrame > 0: the receiver raised SETTINGS_MAX_FRAME_SIZE; then half of the bodies
+// carry one message that needs a DATA frame above 16384 bytes (or several of them).
+func c15GenBody(tape *simrt.Tape, tier string, maxFrame int) []byte {
+	big, bigAt := -1, 0
+	if maxFrame > 0 && tape.Bool(1, 2, "big-message") {
+		// mostly just above the initial limit (cheap), rarely really large
+		sizes := []int{16380, 16380, 16380, 16380, 16380, 16380, 16380, 20000, 20000, 20000, 20000, 40000, 40000, 40000, 40000, 100000}
+		if maxFrame >= 1<<20 {
+			sizes[15] = 300000
+		}
+		big = sizes[tape.Choose(16, "big-len")]
+	}
 	maxEnv := 3
 	lens := []int{0, 1, 5, 17, 200}
 	if tier == "thorough" {
@@ -295,10 +313,18 @@ func c15GenBody(tape *simrt.Tape, tier string) []byte {
 		lens = append(lens, 5000, 20000)
 	}
 	n := tape.Choose(maxEnv+1, "nenv")
+	if big >= 0 {
+		n++
+		bigAt = tape.Choose(n, "big-at")
+	}
 	var body []byte
 	for i := 0; i < n; i++ {
 		flags := []byte{0, 0, 0, 1, 0x80}[tape.Choose(5, "flags")]
-		payload := c15Payload(i, lens[tape.Choose(len(lens), "len")])
+		l := lens[tape.Choose(len(lens), "len")]
+		if big >= 0 && i == bigAt {
+			l = big
+		}
+		payload := c15Payload(i, l)
 		var hdr [5]byte
 		hdr[0] = flags
 		binary.BigEndian.PutUint32(hdr[1:], uint32(len(payload)))
@@ -309,7 +335,8 @@ func c15GenBody(tape *simrt.Tape, tier string) []byte {
 }
 
 // c15SplitData cuts body into DATA frame payloads independent of envelopes.
-func c15SplitData(tape *simrt.Tape, body []byte) [][]byte {
+// No piece exceeds max, the frame size limit in force for the direction.
+func c15SplitData(tape *simrt.Tape, body []byte, max int) [][]byte {
 	if len(body) == 0 {
 		return nil
 	}
@@ -321,7 +348,12 @@ func c15SplitData(tape *simrt.Tape, body []byte) [][]byte {
 	sort.Ints(cuts)
 	var out [][]byte
 	for i := 0; i+1 < len(cuts); i++ {
-		out = append(out, body[cuts[i]:cuts[i+1]]) // empty DATA frames are legal and wanted
+		piece := body[cuts[i]:cuts[i+1]] // empty DATA frames are legal and wanted
+		for len(piece) > max {
+			out = append(out, piece[:max])
+			piece = piece[max:]
+		}
+		out = append(out, piece)
 	}
 	return out
 }
@@ -354,7 +386,11 @@ func (cs *c15Case) headersFrame(tape *simrt.Tape, s *c15Stream, dir int, role st
 
 func (cs *c15Case) dataFrames(tape *simrt.Tape, s *c15Stream, dir int, body []byte, endStream bool) []*c15Frame {
 	var out []*c15Frame
-	for _, p := range c15SplitData(tape, body) {
+	max := 16384
+	if cs.MaxFrame[dir] > 0 {
+		max = cs.MaxFrame[dir]
+	}
+	for _, p := range c15SplitData(tape, body, max) {
 		f := &c15Frame{Dir: dir, Kind: fkData, Stream: s.Idx, SID: s.ID, Data: p}
 		if tape.Bool(1, 8, "dpad") {
 			f.Pad = 1 + tape.Choose(5, "dpadlen")
@@ -402,6 +438,20 @@ func c15Generate(tape *simrt.Tape, tier string, illegalGoAway bool) *c15Case {
 		maxStreams = 4
 	}
 	nStreams := 1 + tape.Choose(maxStreams, "nstreams")
+	for dir := 0; dir < 2; dir++ {
+		cs.MaxFrame[dir] = []int{0, 0, 0, 0, 0, 0, 0, 0, 0, 0, 0, 0, 0, 0, 0, 0, 0, 0, 65536, 1 << 20}[tape.Choose(20, "max-frame-size")]
+	}
+	// The same test name refused twice: streams 0 and 1 are refused, 1 retries 0, stream 2
+	// (if any) usually retries 1; seeded gaps before the second refusal and the last attempt
+	twice := tape.Bool(1, 10, "refused-twice")
+	var gapRefusal2, gapAttempt3 time.Duration
+	if twice {
+		if n := 2 + tape.Choose(2, "refused-twice-attempts"); nStreams < n {
+			nStreams = n
+		}
+		gapRefusal2 = []time.Duration{2000, 0, 900, 2600}[tape.Choose(4, "gap-second-refusal")] * time.Millisecond
+		gapAttempt3 = []time.Duration{1500, 0, 600, 2900, 3400}[tape.Choose(5, "gap-last-attempt")] * time.Millisecond
+	}
 	id := uint32(1)
 	retried := map[int]bool{}
 	for i := 0; i < nStreams; i++ {
@@ -410,14 +460,15 @@ func c15Generate(tape *simrt.Tape, tier string, illegalGoAway bool) *c15Case {
 		if tape.Bool(1, 6, "skip-id") {
 			id += 2
 		}
-		s.Named = !tape.Bool(1, 7, "unnamed")
+		s.Named = !tape.Bool(1, 7, "unnamed") || twice && i < 2
 		if s.Named {
 			s.Name = fmt.Sprintf("Suite/case-%d", i)
 		}
 		// a retry of an earlier refused stream?
 		for j := 0; j < i; j++ {
 			r := cs.Streams[j]
-			if r.Named && !retried[j] && r.Code == http2.ErrCodeRefusedStream && strings.HasPrefix(r.RespKind, "rst") && tape.Bool(2, 3, "retry") {
+			forced := twice && i == 1 && j == 0
+			if forced || r.Named && !retried[j] && r.Code == http2.ErrCodeRefusedStream && strings.HasPrefix(r.RespKind, "rst") && tape.Bool(2, 3, "retry") {
 				s.RetryOf, s.Named, s.Name = j, true, r.Name
 				retried[j] = true
 				break
@@ -447,6 +498,9 @@ func c15Generate(tape *simrt.Tape, tier string, illegalGoAway bool) *c15Case {
 				s.ReqFields = append(s.ReqFields, filler("q"+s.Marker)...)
 			}
 		}
+		if cs.MaxFrame[dirReq] > 0 && tape.Bool(1, 3, "huge-header") {
+			s.ReqFields = append(s.ReqFields, c15Hdr{"x-huge", strings.Repeat("h"+s.Marker, (17000+tape.Choose(3000, "huge-len"))/(1+len(s.Marker)))})
+		}
 		if tape.Bool(1, 6, "long") {
 			s.ReqFields = append(s.ReqFields, c15Hdr{"x-long", strings.Repeat("v", 100+tape.Choose(900, "longlen"))})
 		}
@@ -469,11 +523,17 @@ func c15Generate(tape *simrt.Tape, tier string, illegalGoAway bool) *c15Case {
 		default:
 			s.RespKind = "none"
 		}
+		if twice && i < 2 && !strings.HasPrefix(s.RespKind, "rst") {
+			s.RespKind = "rst-after-headers"
+		}
 		if !c15GenUnnamedTrailers && !s.Named && s.RespKind == "normal" {
 			s.RespKind = "data-end"
 		}
 		if strings.HasPrefix(s.RespKind, "rst") {
 			s.Code = []http2.ErrCode{http2.ErrCodeCancel, http2.ErrCodeInternal, http2.ErrCodeRefusedStream, http2.ErrCodeRefusedStream}[tape.Choose(4, "rstcode")]
+		}
+		if twice && i < 2 {
+			s.Code = http2.ErrCodeRefusedStream
 		}
 		s.Status = []int{200, 200, 200, 200, 404, 503}[tape.Choose(6, "status")]
 		rct := []string{"application/grpc", "application/grpc+proto"}[tape.Choose(2, "rct")]
@@ -486,6 +546,9 @@ func c15Generate(tape *simrt.Tape, tier string, illegalGoAway bool) *c15Case {
 			if tape.Bool(1, 2, "hpack-filler") {
 				s.RespFields = append(s.RespFields, filler("p"+s.Marker)...)
 			}
+		}
+		if cs.MaxFrame[dirResp] > 0 && tape.Bool(1, 3, "huge-header") {
+			s.RespFields = append(s.RespFields, c15Hdr{"x-huge", strings.Repeat("H"+s.Marker, (17000+tape.Choose(3000, "huge-len"))/(1+len(s.Marker)))})
 		}
 		if tape.Bool(1, 3, "xresp") {
 			s.RespFields = append(s.RespFields, c15Hdr{"x-resp", "r" + s.Marker}, c15Hdr{"x-resp", "again"})
@@ -513,7 +576,7 @@ func c15Generate(tape *simrt.Tape, tier string, illegalGoAway bool) *c15Case {
 		if s.Code == http2.ErrCodeRefusedStream && s.ReqEnd == "rst" {
 			s.ReqEnd = "end-stream" // keep the refused/retry histories free of racing resets
 		}
-		s.ReqBody = c15GenBody(tape, tier)
+		s.ReqBody = c15GenBody(tape, tier, cs.MaxFrame[dirReq])
 		switch s.ReqEnd {
 		case "rst":
 			s.ReqBody = c15Cut(tape, s.ReqBody, 1, 2, "reqcut")
@@ -529,7 +592,7 @@ func c15Generate(tape *simrt.Tape, tier string, illegalGoAway bool) *c15Case {
 			s.req = append(s.req, &c15Frame{Dir: dirReq, Kind: fkRST, Stream: i, SID: s.ID, Code: http2.ErrCodeCancel})
 		}
 		if s.RespKind == "normal" || s.RespKind == "rst-after-headers" || s.RespKind == "data-end" {
-			s.RespBody = c15GenBody(tape, tier)
+			s.RespBody = c15GenBody(tape, tier, cs.MaxFrame[dirResp])
 		}
 		switch s.RespKind {
 		case "normal":
@@ -555,15 +618,24 @@ func c15Generate(tape *simrt.Tape, tier string, illegalGoAway bool) *c15Case {
 	}
 	// connection-level frames
 	preface := &c15Frame{Dir: dirReq, Kind: fkPreface, Stream: -1}
-	setC := &c15Frame{Dir: dirReq, Kind: fkSettings, Stream: -1}
-	setS := &c15Frame{Dir: dirResp, Kind: fkSettings, Stream: -1}
+	setC := &c15Frame{Dir: dirReq, Kind: fkSettings, Stream: -1, MaxFrame: cs.MaxFrame[dirResp]}
+	setS := &c15Frame{Dir: dirResp, Kind: fkSettings, Stream: -1, MaxFrame: cs.MaxFrame[dirReq]}
+	if twice {
+		// the second refusal well after the first, the last attempt a seeded while after it
+		if r := cs.Streams[1].resp; len(r) > 0 {
+			r[len(r)-1].Gap = gapRefusal2
+		}
+		if len(cs.Streams) > 2 && cs.Streams[2].RetryOf == 1 {
+			cs.Streams[2].req[0].Gap = gapAttempt3
+		}
+	}
 	ackC := &c15Frame{Dir: dirReq, Kind: fkSettingsAck, Stream: -1, deps: []*c15Frame{setS}}
 	ackS := &c15Frame{Dir: dirResp, Kind: fkSettingsAck, Stream: -1, deps: []*c15Frame{setC}}
 	queues := [][]*c15Frame{{preface, setC, ackC}, {setS, ackS}}
 	for i, s := range cs.Streams {
 		s.req[0].deps = append(s.req[0].deps, setC)
-		if cs.BigTable[dirReq] > 0 {
-			// the client may only enlarge its table after the server's SETTINGS allowed it
+		if cs.BigTable[dirReq] > 0 || cs.MaxFrame[dirReq] > 0 {
+			// the client may only enlarge its table / its frames after the server's SETTINGS allowed it
 			s.req[0].deps = append(s.req[0].deps, setS)
 		}
 		if i > 0 {
@@ -752,7 +824,11 @@ func (e *c15Encoder) write(f *c15Frame) error {
 		e.buf[d].WriteString(clientPreface)
 		f.phys = nil
 	case fkSettings:
-		err = fr.WriteSettings(http2.Setting{ID: http2.SettingHeaderTableSize, Val: 1 << 16}, http2.Setting{ID: http2.SettingMaxConcurrentStreams, Val: 100}, http2.Setting{ID: http2.SettingInitialWindowSize, Val: 1 << 20})
+		set := []http2.Setting{{ID: http2.SettingHeaderTableSize, Val: 1 << 16}, {ID: http2.SettingMaxConcurrentStreams, Val: 100}, {ID: http2.SettingInitialWindowSize, Val: 1 << 20}}
+		if f.MaxFrame > 0 {
+			set = append(set, http2.Setting{ID: http2.SettingMaxFrameSize, Val: uint32(f.MaxFrame)})
+		}
+		err = fr.WriteSettings(set...)
 	case fkSettingsAck:
 		err = fr.WriteSettingsAck()
 	case fkPing:
@@ -814,6 +890,15 @@ func (e *c15Encoder) write(f *c15Frame) error {
 		err = fr.WriteRawFrame(http2.FrameType(f.RawType), http2.Flags(f.RawFlags), f.SID, f.Data)
 	}
 	f.end = e.buf[d].Len()
+	for i, st := range f.phys {
+		next := f.end
+		if i+1 < len(f.phys) {
+			next = f.phys[i+1]
+		}
+		if next-st-frameHeaderLen > 16384 {
+			f.bigFrame = true
+		}
+	}
 	return err
 }
 
@@ -1667,11 +1752,16 @@ func c15Judge(cs *c15Case, seq []*c15Frame, end *c15End, got []c15Delivery) *c15
 		return items[i].start && !items[j].start
 	})
 	parked := map[string]int{}
+	refusals := map[string][]int{} // per test name: the refused attempts in order
 	for _, it := range items {
 		s, e := cs.Streams[it.s], exps[it.s]
 		if it.start {
 			if p, ok := parked[s.Name]; ok {
 				dt := e.startAt - exps[p].finalAt
+				if r := refusals[s.Name]; len(r) >= 2 && dt < retryWait && e.startAt-exps[r[0]].finalAt > retryWait {
+					// a timer left over from the first refusal would fire into the second wait
+					v.probes["retry-after-first-window-inside-second"]++
+				}
 				switch {
 				case dt < retryWait:
 					want[p] = 0
@@ -1687,6 +1777,10 @@ func c15Judge(cs *c15Case, seq []*c15Frame, end *c15End, got []c15Delivery) *c15
 		}
 		if e.final == "server-rst" && e.code == http2.ErrCodeRefusedStream {
 			parked[s.Name] = it.s
+			refusals[s.Name] = append(refusals[s.Name], it.s)
+			if len(refusals[s.Name]) == 2 {
+				v.probes["refused-twice"]++
+			}
 			if e.finalAt+retryWait < deadline[it.s] {
 				deadline[it.s] = e.finalAt + retryWait
 			}
@@ -1694,6 +1788,9 @@ func c15Judge(cs *c15Case, seq []*c15Frame, end *c15End, got []c15Delivery) *c15
 	}
 	for _, p := range parked {
 		v.probes["refused-not-retried"]++
+		if len(refusals[cs.Streams[p].Name]) >= 2 {
+			v.probes["refused-twice-no-further-attempt"]++
+		}
 		if exps[p].finalAt+retryWait > end.at && end.teardowns >= 2 {
 			v.probes["parked-trace-teardown-twice"]++ // held back when the connection ended, then torn down again
 		}
@@ -1742,6 +1839,9 @@ func c15Judge(cs *c15Case, seq []*c15Frame, end *c15End, got []c15Delivery) *c15
 		if len(ds) == 0 {
 			v.viol("c15/trace-missing", "%s ended (%s %s at %s) but no trace was delivered by the end of the run (connection ended at %s)", desc, e.final, e.code, e.finalAt, end.at)
 			continue
+		}
+		if ds[0].at < e.finalAt {
+			v.viol("c15/trace-early", "%s ended (%s %s) at %s, but its trace was delivered already at %s", desc, e.final, e.code, e.finalAt, ds[0].at)
 		}
 		if ds[0].at > deadline[i] {
 			v.viol("c15/trace-late", "%s ended (%s %s) at %s, its trace was delivered at %s, later than %s", desc, e.final, e.code, e.finalAt, ds[0].at, deadline[i])
@@ -1844,6 +1944,15 @@ func c15WellformedBody(tape *simrt.Tape, o simwork.Opts, res *simwork.Result) {
 	d.after = func() {
 		for nDone < len(cs.Frames) && d.pos[cs.Frames[nDone].Dir] >= cs.Frames[nDone].end {
 			cs.Frames[nDone].doneAt = d.now()
+			if f := cs.Frames[nDone]; f.bigFrame {
+				res.Probes["frame-above-16384"]++
+				if f.Kind == fkHeaders {
+					res.Probes["headers-frame-above-16384"]++
+				}
+			}
+			if f := cs.Frames[nDone]; f.Kind == fkSettings && f.MaxFrame > 0 {
+				res.Probes["settings-max-frame-size-raised"]++
+			}
 			if f := cs.Frames[nDone]; f.Kind == fkHeaders {
 				if f.hpackUpdate {
 					res.Probes["hpack-table-size-update"]++
@@ -1873,13 +1982,18 @@ func c15WellformedBody(tape *simrt.Tape, o simwork.Opts, res *simwork.Result) {
 			}
 		}
 		for _, f := range byDir[dir] {
-			if d.pos[dir] < f.end && f.gidx > otherNext {
+			if d.pos[dir] < f.end && (f.gidx > otherNext || f.Gap > 0 && !f.gapDone && f.gidx != nDone) {
 				return f.end - 1
 			}
 		}
 		return len(cs.bytes[dir])
 	}
 	for !d.dead {
+		if nDone < len(cs.Frames) && cs.Frames[nDone].Gap > 0 && !cs.Frames[nDone].gapDone {
+			// the next frame to complete was planned to come a while after the previous one
+			cs.Frames[nDone].gapDone = true
+			time.Sleep(cs.Frames[nDone].Gap)
+		}
 		var sides, avail []int
 		for dir := 0; dir < 2; dir++ {
 			if a := limit(dir) - d.pos[dir]; a > 0 {
